@@ -38,6 +38,15 @@ CLAIMED["C20"] = dict(
    note="Bounds: 2 local + 1 remote candidates, 24-bit nomination values, 0..2 outstanding transactions. The deferred-path defect found by this check was repaired (fix commit 1c6a613, recorded as fixed). Trusted: encoder, z3, integrity contract. Outside: two-agent convergence on the mirror pair.",
    ref="DESIGN.md §5 C20")
 
+CLAIMED["C06"] = dict(
+   text="The bookkeeping invariant I1-I5 is asserted after every mutator executed as real code from a bounded pre-state that satisfies it: public AddRemoteCandidate with six candidate kinds (incl. a signalled candidate superseding a peer-reflexive one: pairs keep id/state/flags/priority/selection), authenticated requests from unknown and from already-signalled sources (peer-reflexive discoveries go through the remote IP filter), local candidate arrival (new/duplicate), Restart and the Failed transition (no residue, ids not reused). Pair states/flags, the filter's rejected octet, tie-breakers and priorities are symbolic.",
+   note="Bounds: <= 2 local, <= 2 remote, <= 4 pairs; one step from the pre-state per harness (inductive over the invariant). Trusted: encoder, z3, integrity contract, taskloop.Run contract, AddRemoteCandidate's goroutine run synchronously. Outside: passive-TCP remotes, mDNS resolution.",
+   ref="DESIGN.md §5 C06")
+CLAIMED["C07"] = dict(
+   text="Write path and read path step lemmas on the real Conn.Write/WriteToPair/Read, CandidatePair.Write, candidateBase.writeTo/handleInboundPacket/validateSTUNTrafficCache, Agent.validateNonSTUNTraffic and the real packetio.Buffer, against recording fake sockets with nondeterministic outcomes: exactly one byte-identical datagram leaves through the selected (else a best valid) pair's socket to its remote; STUN-looking payloads, closed agents and missing valid pairs send nothing; counters advance by exactly (1,n); inbound non-STUN reaches the reader once and unmodified iff its source is a known remote of the same transport, else nothing changes; STUN-looking input never reaches the reader.",
+   note="Bounds: payload lengths {0,1,19,20,24} with every byte symbolic, 2 pairs, symbolic pair states and priorities 1..256, any IPv4 source. Trusted: encoder, z3, fake sockets, sync.Map sequential model, taskloop.Run contract. Outside: delivery at the peer, re-selection races.",
+   ref="DESIGN.md §5 C07")
+
 NOT_APPLICABLE = {
  "C01": "needs two live agents, a symbolic network scheduler and a fairness (liveness) argument; a sequential encoder of single functions cannot express it (its safety half is covered by the C02/C03 lemmas)",
  "C08": "termination / unblocking of blocked goroutines and a goroutine census: no scheduler or channel model in a sequential SSA encoder",
@@ -46,8 +55,6 @@ NOT_APPLICABLE = {
 }
 
 NOT_BUILT = {
- "C06": "check not built yet in this round (planned in DESIGN.md §5); not claimed",
- "C07": "check not built yet in this round (planned in DESIGN.md §5); not claimed",
  "C09": "check not built yet in this round (planned in DESIGN.md §5); not claimed",
  "C12": "check not built yet in this round (planned in DESIGN.md §5); not claimed",
  "C13": "check not built yet in this round (planned in DESIGN.md §5); not claimed",
